@@ -105,6 +105,9 @@ let () = Reg.register "c13.expand" (fun inp out ->
     else L [A "ok"; put_nonterms r.Expand.res_nonterms; put_inputs r.Expand.res_inputs] in
   let verdict = match lst out with
     | [A "err"] -> "ok"   (* rejecting is not a language change *)
-    | [A "ok"; nts; _] -> language_verdict m (get_nonterms nts)
+    | [A "ok"; nts; _] ->
+      (* the side conditions of the Coq theorem C13_expand_correct, evaluated on this model *)
+      if not (Expand.expand_checks m) then "bad:side-conditions-of-the-correctness-theorem-do-not-hold"
+      else language_verdict m (get_nonterms nts)
     | _ -> "bad:unparsable" in
   (model, verdict))
